@@ -130,9 +130,10 @@ where
     fn update_chromatic_frame(
         &mut self,
         spi: &mut SPI,
-        _delay: &mut DELAY,
+        delay: &mut DELAY,
         chromatic: &[u8],
     ) -> Result<(), SPI::Error> {
+        self.wait_until_idle(spi, delay)?;
         self.interface.cmd(spi, Command::DataStartTransmission2)?;
         self.interface.data(spi, chromatic)?;
         Ok(())
